@@ -228,9 +228,12 @@ def result_of(c, mode):
 class Fn(object):
     """a generated deterministic function + its reference twin + evaluation log"""
 
-    def __init__(self, sig, mode='str', raising=None):
+    def __init__(self, sig, mode='str', raising=None, typed_top=False):
         self.sig = sig
         self.mode = mode
+        # with a typed keymap 1, 1.0 and True are DIFFERENT arguments at top level (klepto promises separate entries), so the generated
+        # function may (and does) return different results for them; with an untyped keymap it must not (raw keys merge them legitimately)
+        self.typed_top = typed_top
         self.log = []                 # one entry per evaluation: canonical bound args
         self.received = []            # the (named, varargs, varkw) objects as received
         self.raising = raising or {}  # canon -> exception instance
@@ -256,10 +259,13 @@ class Fn(object):
             if c not in self.raising:
                 self.raising[c] = getattr(builtins, cls)('generated failure #%d' % i)
 
-    @staticmethod
-    def _canon(named, va, vk):
-        return (tuple((n, V.canon(v)) for n, v in named), tuple(V.canon(v) for v in va),
-                tuple(sorted((k, V.canon(v)) for k, v in vk.items())))
+    def _canon(self, named, va, vk):
+        if self.typed_top:
+            T = lambda v: (type(v).__name__, V.canon(v))
+        else:
+            T = V.canon
+        return (tuple((n, T(v)) for n, v in named), tuple(T(v) for v in va),
+                tuple(sorted((k, T(v)) for k, v in vk.items())))
 
     def _body(self, named, va, vk):
         c = self._canon(named, va, vk)
@@ -441,7 +447,7 @@ class Session(object):
     def __init__(self, cfg, root, fn=None, cacheobj='open', name='A'):
         self.cfg = cfg
         self.root = root
-        self.fn = fn or Fn(cfg['sig'], cfg.get('rmode', 'str'), None)
+        self.fn = fn or Fn(cfg['sig'], cfg.get('rmode', 'str'), None, typed_top=bool(cfg.get('keymap') and cfg['keymap'].get('typed')))
         if fn is None and cfg.get('raising'):
             self.fn.set_raising(cfg, cfg['raising'])
         if cacheobj == 'open':
